@@ -2,9 +2,13 @@
 //! Every subcommand runs the REAL library built from /repo's working tree.
 mod compat;
 mod copy;
+mod files;
 mod locks;
+mod merge;
 mod names;
+mod range;
 mod regexes;
+mod sortgen;
 mod spec;
 mod tree;
 mod tree_oracle;
@@ -21,13 +25,17 @@ fn main() {
     util::quiet_panics();
     match args[1].as_str() {
         "copy" => copy::main(&args[2..]),
+        "files" => files::main(&args[2..]),
         "locks" => locks::main(&args[2..]),
         "names" => names::main(&args[2..]),
         "spec-types" => spec::types_main(&args[2..]),
         "spec" => spec::main(&args[2..]),
+        "range" => range::main(&args[2..]),
         "regex" => regexes::main(&args[2..]),
         "xml" => xml::main(&args[2..]),
         "tree" => tree::main(&args[2..]),
+        "merge" => merge::main(&args[2..]),
+        "sort" => sortgen::main(&args[2..]),
         "compat" => compat::main(&args[2..]),
         "values" => values::main(&args[2..]),
         other => {
